@@ -86,6 +86,7 @@ struct PeerConfig
   std::string toSend; // application bytes the peer sends once the handshake is done
   std::vector<std::string> moreSends; // further application writes (one TLS record each) after toSend
   std::string sni;
+  bool holdHandshake = false; // server role: accept the TCP connection but do not touch it until release() is called
   int rcvbuf = 65536; // simulated receive buffer of the peer's sockets (small => the other side sees EAGAIN mid-record)
 };
 
@@ -101,6 +102,10 @@ struct PeerConn
   size_t sentParts = 0;   // how many of cfg.moreSends were written completely
   bool wantWrite = false; // last SSL call asked for writability
   bool sawClientCert = false;
+  bool pendingSetup = false; // accepted while the peer is held
+  std::string wireSaved;     // everything the OTHER side put on the wire, saved when this endpoint closes its descriptor
+  // raw bytes the other side (the code under test) transmitted on this connection
+  std::string wire() const { return closed ? wireSaved : simk_peer_txlog(fd); }
 };
 
 class Peer
@@ -141,6 +146,11 @@ public:
     c.fd = fd;
     conns.push_back(c);
     _pendingClient = true;
+    poke();
+  }
+  void release()
+  {
+    _released = true;
     poke();
   }
   void stop()
@@ -224,6 +234,7 @@ private:
       SSL_free(c.ssl);
       c.ssl = nullptr;
     }
+    c.wireSaved = simk_peer_txlog(c.fd);
     ::close(c.fd);
     c.closed = true;
   }
@@ -372,6 +383,13 @@ private:
             _pendingClient = false;
             setupConn(conns.back());
           }
+          if (_released)
+            for (auto &c : conns)
+              if (c.pendingSetup)
+              {
+                c.pendingSetup = false;
+                setupConn(c);
+              }
           continue;
         }
         if (fd == _lfd)
@@ -384,8 +402,10 @@ private:
             simk_set_rcvbuf(cfd, cfg.rcvbuf);
             PeerConn c;
             c.fd = cfd;
+            c.pendingSetup = cfg.holdHandshake && !_released;
             conns.push_back(c);
-            setupConn(conns.back());
+            if (!conns.back().pendingSetup)
+              setupConn(conns.back());
           }
           continue;
         }
@@ -406,5 +426,6 @@ private:
   std::thread _th;
   bool _stop = false;
   bool _pendingClient = false;
+  bool _released = false;
 };
 } // namespace tp
